@@ -209,4 +209,90 @@ theorem sample_complete_core {H : HashFn} (hlen : HashLen H) {e : Eds} {k : Nat}
       simp only [verify, hr1, hc1, ne_eq, not_true_eq_false, ↓reduceIte, luminaVerifyRange, hshape, verifyRange, Bool.false_eq_true,
         List.length_singleton, NsProof.rangeLen, Nat.add_sub_cancel_left, List.map_cons, List.map_nil, hchk]
 
+/-! ### relative collision-freeness (`HashOKOn`) -/
+
+/-- inputs hashed while `Sample::verify` checks this sample: the leaf preimage and the `hash_nodes` calls of
+    `check_range_proof` -/
+def sampleInputs (H : HashFn) (s : Sample) : List Bytes :=
+  leafInput s.share.ns s.share.data ::
+    proofInputs H s.proof.ignoreMaxNs [hashLeaf H s.share.ns s.share.data] s.proof.siblings s.proof.start
+
+/-- what an accepted single-leaf range proof against an axis root says about the axis' shares, assuming no collision
+    among the inputs hashed for that axis tree and by the verifier -/
+theorem axis_leaf_bound_on {H : HashFn} {S : Bytes → Prop} (hk : HashOKOn H S) {e : Eds} {k : Nat} (hw : e.width = 2 ^ k)
+    (hsz : ∀ sh ∈ e.shares, NS_SIZE ≤ sh.data.length) {ax : Axis} {index i : Nat} {root : NsHash}
+    (hroot : e.axisRoot H ax index = .ok root) (hi : i < e.width)
+    {s : Sample} (hss : NS_SIZE ≤ s.share.data.length) (hsib : ∀ p ∈ s.proof.siblings, p.WF)
+    (hA : ∀ y ∈ axisInputs H e ax index, S y) (hV : ∀ y ∈ sampleInputs H s, S y)
+    (hv : verifyRange H s.proof root [s.share.data] s.share.ns = .ok ()) (hst : s.proof.start = i) :
+    ∃ sh, e.share? (axisCoord ax index i).1 (axisCoord ax index i).2 = some sh ∧ sh.data = s.share.data := by
+  obtain ⟨shares, hax, hcr, _⟩ := axisRoot_ok hroot
+  obtain ⟨hlen, hget⟩ := axis?_some hax
+  obtain ⟨sh, hsh, hshi⟩ := hget i hi
+  refine ⟨sh, hsh, ?_⟩
+  have hmem : ∀ x ∈ shares, x ∈ e.shares := by
+    intro x hx
+    obtain ⟨n, hn, rfl⟩ := List.getElem_of_mem hx
+    obtain ⟨y, hy1, hy2⟩ := hget n (by omega)
+    rw [List.getElem?_eq_getElem hn] at hy2
+    injection hy2 with hy2
+    rw [hy2]
+    exact List.mem_of_getElem? hy1
+  have al : AllLeafOn H S (shares.map (Share.leafHash H)) :=
+    (axis_allLeafOn hax (fun sh hs => hsz sh (hmem sh hs))).mono hA
+  have hSs : S (leafInput s.share.ns s.share.data) := hV _ (by simp [sampleInputs])
+  have lx : IsLeafOn H S (hashLeaf H s.share.ns s.share.data) := ⟨_, _, share_ns_length hss, rfl, hSs⟩
+  have hT : ∀ y ∈ rootInputs H true ((shares.map (Share.leafHash H)).length + 1) (shares.map (Share.leafHash H)), S y :=
+    fun y hy => hA y (axis_rootInputs_mem hax hy)
+  unfold verifyRange at hv
+  split at hv
+  · cases hv
+  · split at hv
+    · cases hv
+    · simp only [List.map_cons, List.map_nil] at hv
+      have hV' : ∀ y ∈ proofInputs H s.proof.ignoreMaxNs [hashLeaf H s.share.ns s.share.data] s.proof.siblings i, S y := by
+        intro y hy; apply hV; rw [← hst] at hy; simp [sampleInputs, hy]
+      rw [hst] at hv
+      have hL : (shares.map (Share.leafHash H)).length = 2 ^ k := by simp [hlen, hw]
+      have hik : i < 2 ^ k := by omega
+      have := checkRangeProof_single_sound_on hk al hL hcr lx hsib hik hV' hT hv
+      rw [List.getElem?_map, hshi] at this
+      simp only [Option.map_some, Option.some.injEq, Share.leafHash] at this
+      have hns : sh.ns = s.share.ns := congrArg NsHash.minNs this
+      have hh : (hashLeaf H sh.ns sh.data).hash = (hashLeaf H s.share.ns s.share.data).hash := congrArg NsHash.hash this
+      have hSsh : S (leafInput sh.ns sh.data) := by
+        apply hA; unfold axisInputs; rw [hax]
+        exact List.mem_append_left _ (List.mem_map.mpr ⟨sh, List.mem_of_getElem? hshi, rfl⟩)
+      exact (hashLeaf_inj_on hk.inj (by rw [hns]) hSsh hSs hh).2
+
+/-! ### a toy hash for non-vacuity examples -/
+
+/-- a toy 32-byte hash: byte `j` of the digest is the sum (mod 256) of `byte + 1` over the input positions ≡ j (mod 32).
+    Of course it has collisions; it has none among the few inputs of the concrete examples (checked by `decide`). -/
+def toySum : HashFn := fun x =>
+  (x.foldl (fun (st : List UInt8 × Nat) b => (st.1.set (st.2 % 32) (st.1.getD (st.2 % 32) 0 + b + 1), st.2 + 1))
+    (List.replicate 32 0, 0)).1
+
+theorem toySum_len : HashLen toySum := by
+  intro x
+  unfold toySum
+  have : ∀ (l : List UInt8) (st : List UInt8 × Nat), st.1.length = 32 →
+      (l.foldl (fun (st : List UInt8 × Nat) b => (st.1.set (st.2 % 32) (st.1.getD (st.2 % 32) 0 + b + 1), st.2 + 1)) st).1.length = 32 := by
+    intro l
+    induction l with
+    | nil => intro st h; exact h
+    | cons a t ih => intro st h; exact ih _ (by simp [h])
+  exact this x _ (by simp)
+
+/-- collision-freeness on an explicit list is decidable -/
+theorem noCollOn_of_list {H : HashFn} {l : List Bytes}
+    (h : l.all (fun a => l.all (fun b => !(H a == H b) || a == b)) = true) : NoCollOn H (fun y => y ∈ l) := by
+  intro a b ha hb hab
+  have h1 := List.all_eq_true.mp h a ha
+  have h2 := List.all_eq_true.mp h1 b hb
+  simp only [Bool.or_eq_true, Bool.not_eq_true', beq_eq_false_iff_ne, ne_eq, beq_iff_eq] at h2
+  rcases h2 with h2 | h2
+  · exact absurd hab h2
+  · exact h2
+
 end Lumina.Proofs.Sample
